@@ -26,7 +26,8 @@ var (
 	graphs  = map[*ssa.Function]*Graph{}
 )
 
-// IsNoReturn reports whether the call never returns to its caller.
+// IsNoReturn reports whether the call never returns to its caller: the known library exits, and functions with a
+// body in which no return statement is reachable once such calls are taken into account (a `fatalf` helper).
 func IsNoReturn(c ssa.CallInstruction) bool {
 	if _, ok := c.(*ssa.Call); !ok {
 		return false
@@ -35,6 +36,10 @@ func IsNoReturn(c ssa.CallInstruction) bool {
 	if f == nil {
 		return false
 	}
+	return FuncNoReturn(f)
+}
+
+func libNoReturn(f *ssa.Function) bool {
 	switch {
 	case FuncIs(f, "os", "Exit"), FuncIs(f, "syscall", "Exit"), FuncIs(f, "runtime", "Goexit"),
 		FuncIs(f, "log", "Fatal"), FuncIs(f, "log", "Fatalf"), FuncIs(f, "log", "Fatalln"),
@@ -46,13 +51,74 @@ func IsNoReturn(c ssa.CallInstruction) bool {
 	return false
 }
 
+var (
+	noRetMemo = map[*ssa.Function]bool{}
+	noRetBusy = map[*ssa.Function]bool{}
+	// ModulePrefix restricts the interprocedural no-return inference to functions of the analysed module.
+	ModulePrefix = "github.com/elastic/go-seccomp-bpf"
+)
+
+// FuncNoReturn: f never returns normally.
+func FuncNoReturn(f *ssa.Function) bool {
+	if libNoReturn(f) {
+		return true
+	}
+	if f.Pkg == nil || len(f.Blocks) == 0 || len(f.Pkg.Pkg.Path()) < len(ModulePrefix) || f.Pkg.Pkg.Path()[:len(ModulePrefix)] != ModulePrefix {
+		return false
+	}
+	graphMu.Lock()
+	if v, ok := noRetMemo[f]; ok {
+		graphMu.Unlock()
+		return v
+	}
+	if noRetBusy[f] {
+		graphMu.Unlock()
+		return false // recursion: assume it returns
+	}
+	noRetBusy[f] = true
+	graphMu.Unlock()
+	g := G(f)
+	res := true
+	for _, b := range f.Blocks {
+		if !g.Live(b) {
+			continue
+		}
+		if _, dead := g.NoRet[b]; dead {
+			continue
+		}
+		if _, ok := b.Instrs[len(b.Instrs)-1].(*ssa.Return); ok {
+			res = false
+		}
+	}
+	if f.Recover != nil {
+		res = false
+	}
+	graphMu.Lock()
+	noRetMemo[f] = res
+	delete(noRetBusy, f)
+	graphMu.Unlock()
+	return res
+}
+
 // G returns the pruned graph of fn.
 func G(fn *ssa.Function) *Graph {
 	graphMu.Lock()
-	defer graphMu.Unlock()
 	if g, ok := graphs[fn]; ok {
+		graphMu.Unlock()
 		return g
 	}
+	graphMu.Unlock()
+	g := buildGraph(fn)
+	graphMu.Lock()
+	defer graphMu.Unlock()
+	if old, ok := graphs[fn]; ok {
+		return old
+	}
+	graphs[fn] = g
+	return g
+}
+
+func buildGraph(fn *ssa.Function) *Graph {
 	g := &Graph{Fn: fn, succs: map[*ssa.BasicBlock][]*ssa.BasicBlock{}, preds: map[*ssa.BasicBlock][]*ssa.BasicBlock{},
 		idom: map[*ssa.BasicBlock]*ssa.BasicBlock{}, order: map[*ssa.BasicBlock]int{}, NoRet: map[*ssa.BasicBlock]ssa.CallInstruction{}}
 	for _, b := range fn.Blocks {
@@ -73,7 +139,6 @@ func G(fn *ssa.Function) *Graph {
 		}
 	}
 	if len(fn.Blocks) == 0 {
-		graphs[fn] = g
 		return g
 	}
 	// reverse postorder
@@ -132,7 +197,6 @@ func G(fn *ssa.Function) *Graph {
 			}
 		}
 	}
-	graphs[fn] = g
 	return g
 }
 
